@@ -148,6 +148,19 @@ def run_case(case: Case):
                 rec['status'] = 'disagree'
                 rec['detail'] = {'impl': small(a), 'bigstep': small(b), 'model': small(m)}
                 return rec
+    if case.big and case.mode == 'main':
+        # third evaluator: the call-by-name *reference semantics* itself (trees, no store; adequacy theorem ByName.adequacy):
+        # where it assigns an integer / Boolean to the program, that is what the implementation must print
+        try:
+            bn = model.run_bn(case.program)
+        except Exception:
+            return {'tag': case.tag, 'status': 'harness-error', 'detail': traceback.format_exc()[-800:]}
+        if bn is not None:
+            rec['bn'] = 'fn' if bn == 'fn' else 'value'
+            if bn != 'fn' and not (a['kind'] == 'ok' and a.get('results') == [bn]):
+                rec['status'] = 'disagree'
+                rec['detail'] = {'impl': small(a), 'by_name_value': bn, 'model': small(m)}
+                return rec
     if case.mode == 'events':
         ia = [(e[0], e[1], tuple(e[2])) + ((e[4],) if e[0] == 'A' else ()) for e in a['events']]
         if ia != m.get('events'):
